@@ -127,6 +127,15 @@ pub fn run(ctx: &Ctx) -> Report {
             }
             record(&mut rep, &case, discs);
         }
+        if prop == "C10" && w == 0 {
+            // the constructive staking histories (long unbonding queue, well over a hundred validators, ...)
+            for (name, case) in crate::engines::e4_staking::templates() {
+                rep.bump("e1/staking_query_templates");
+                for (p, sig, detail) in crate::engines::e4_staking::run_case(&case, false, &mut rep) {
+                    rep.violate(&p, sig, detail.clone(), json!({"engine": "e4_staking", "template": name, "case": case, "with_twin": false, "first_discrepancy": detail}));
+                }
+            }
+        }
         if prop == "C10" {
             // staking queries against the committed raw state (discrepancies tagged C10 by the staking engine)
             let n = ctx.scale(240, 16 * 4000) / ctx.workers as u64;
